@@ -488,9 +488,11 @@ def run(chk):
             chk.known(e["what"])
 
 
-def replay_case(case, table, quiet=False):
+def replay_case(case, table, quiet=False, kernel=None, grid=None):
     real = c25_real.run_case(case, common.REPO)
     fails = property_failures(case, real, table) if real["build"] == "ok" else []
+    if kernel is not None:   # the failure named by a replay file: that kernel (on that grid)
+        fails = [f for f in fails if f["kernel"] == kernel and (grid is None or f["env"]["H"] == grid)]
     if not quiet:
         print("case:", json.dumps({k: case[k] for k in ("adds", "kerns", "steps")}))
         print("real: build", real["build"], "lowering", real["lowering"], "accepted", real["accepted"], "cb", real["cb"])
@@ -505,7 +507,8 @@ def replay(payload):
     import copy
     table = copy.deepcopy(c25_real.reset_state())
     if "case" in payload:
-        return 1 if replay_case(fix_env_keys(payload["case"]), table) else 0
+        grid = (payload.get("env") or {}).get("H")
+        return 1 if replay_case(fix_env_keys(payload["case"]), table, kernel=payload.get("kernel"), grid=grid) else 0
     if "table_entry" in payload:
         off, pt, its = payload["table_entry"]
         d = table[off][pt][its]
